@@ -3,7 +3,7 @@ import Helm.Props.C05
 #print axioms Helm.Props.C05.sortManifests_perm_invariant
 #print axioms Helm.Props.C05.notes_rest_perm
 #print axioms Helm.Props.C05.notes_perm_invariant
-#print axioms Helm.Props.C05.counterexample_subnotes_order
+#print axioms Helm.Props.C05.notes_sorted_perm_invariant
 #print axioms Helm.Props.C05.env_functions_removed
 #print axioms Helm.Props.C05.extra_functions_are_spec
 #print axioms Helm.Props.C05.dns_stubbed_unless_enabled
